@@ -1066,7 +1066,10 @@ def _len(interp, args, kwargs, node, env):
         v = v.attrs['d']
     if unknown(v) or isinstance(v, (Obj, Inst)):
         return Opaque('len(%s)' % key_of(v))
-    return len(v)
+    try:
+        return len(v)
+    except TypeError as ex:
+        raise Raised('TypeError: %s' % ex, node, env.get('__rel__'))
 
 
 def _print(interp, args, kwargs, node, env):
